@@ -203,17 +203,24 @@ Definition assign_shard_gen (ch : hashes -> list node -> state -> shard -> state
 Definition assign_shard := assign_shard_gen assign_consistent_hash.
 
 (* rebalance: returns the moves (shard, old node, new node) *)
+(* `assignments.iter().filter_map(|(shard, old)| ring.get_node(shard).and_then(|new| (new != old) ...))` *)
+Definition rebalance_moves (H : hashes) (r : ring) (a : assignments) : list (shard * node * node) :=
+  flat_map (fun p => match ring_get r (shard_hash H (fst p)) with
+                     | Some n' => if N.eqb n' (snd p) then [] else [(fst p, snd p, n')]
+                     | None => []
+                     end) a.
+
+(* `for (shard, _old, new) in &moves { assignments.insert(shard, new) }` *)
+Definition apply_moves (moves : list (shard * node * node)) (a : assignments) : assignments :=
+  fold_left (fun acc m => aset N.eqb (fst (fst m)) (snd m) acc) moves a.
+
 Definition rebalance (H : hashes) (order : list node) (st : state) : state * list (shard * node * node) :=
   match healthy_ingesters order (st_reg st) with
   | [] => (st, [])
   | nodes =>
       let r := ring_build H nodes in
-      let moves := flat_map (fun p => match ring_get r (shard_hash H (fst p)) with
-                                      | Some n' => if N.eqb n' (snd p) then [] else [(fst p, snd p, n')]
-                                      | None => []
-                                      end) (st_asg st) in
-      let asg' := fold_left (fun a m => aset N.eqb (fst (fst m)) (snd m) a) moves (st_asg st) in
-      let st1 := mkState (st_reg st) asg' r in
+      let moves := rebalance_moves H r (st_asg st) in
+      let st1 := mkState (st_reg st) (apply_moves moves (st_asg st)) r in
       (fold_left (fun acc p => update_node_shards acc (fst p)) nodes st1, moves)
   end.
 
